@@ -41,6 +41,16 @@ Curated == {
     N("seq", "", "", 1, <<3, 4>>, <<>>, "", 0), N("s", "int", "1", 2, <<>>, <<>>, "A", 0), Sc("int", "1", 2),
     N("seq", "", "", 1, <<6, 7>>, <<>>, "", 0), N("s", "int", "1", 5, <<>>, <<>>, "A", 3), N("seq", "", "", 5, <<>>, <<>>, "", 0),
     N("map", "", "", 1, <<>>, <<>>, "", 0)>>,
+  \* {a: &A x, m: {*A : 1, b: 2}, c: *A}   - an Alias used as a mapping key, first in its Hash
+  <<N("map", "", "", 0, <<2, 3, 6>>, <<S("str", "a"), S("str", "m"), S("str", "c")>>, "", 0),
+    N("s", "str", "x", 1, <<>>, <<>>, "A", 0),
+    N("map", "", "", 1, <<4, 5>>, <<S("str", "x"), S("str", "b")>>, "", 0) @@ [kanch |-> <<"A", "">>],
+    Sc("int", "1", 3), Sc("int", "2", 3), N("s", "str", "x", 1, <<>>, <<>>, "A", 2)>>,
+  \* {a: &A x, m: {b: 2, *A : 1, c: 3}}     - ... in the middle of its Hash
+  <<N("map", "", "", 0, <<2, 3>>, <<S("str", "a"), S("str", "m")>>, "", 0),
+    N("s", "str", "x", 1, <<>>, <<>>, "A", 0),
+    N("map", "", "", 1, <<4, 5, 6>>, <<S("str", "b"), S("str", "x"), S("str", "c")>>, "", 0) @@ [kanch |-> <<"", "A", "">>],
+    Sc("int", "2", 3), Sc("int", "1", 3), Sc("int", "3", 3)>>,
   \* [[1, 2], [1, 2], {a: 1}]
   <<N("seq", "", "", 0, <<2, 5, 8>>, <<>>, "", 0), N("seq", "", "", 1, <<3, 4>>, <<>>, "", 0), Sc("int", "1", 2), Sc("int", "2", 2),
     N("seq", "", "", 1, <<6, 7>>, <<>>, "", 0), Sc("int", "1", 5), Sc("int", "2", 5),
@@ -122,7 +132,10 @@ WellFormed == phase = "edit" => AnchorsWellFormed(cur)
 \* action properties: frames
 SetFrame == [][(phase = "edit" /\ ~HasSet(cur) /\ Len(hist') > Len(hist) /\ hist'[Len(hist')].op = "set_must") =>
                  /\ Len(cur') = Len(cur)
-                 /\ \A i \in 1..Len(cur) : cur'[i].k = cur[i].k /\ cur'[i].kids = cur[i].kids /\ cur'[i].keys = cur[i].keys
+                 /\ \A i \in 1..Len(cur) : cur'[i].k = cur[i].k /\ cur'[i].kids = cur[i].kids /\ Len(cur'[i].keys) = Len(cur[i].keys)
+                                           \* a key changes only where it is an Alias of an Anchor (it then reads the new value)
+                                           /\ (\A j \in 1..Len(cur[i].keys) : cur'[i].keys[j] # cur[i].keys[j] => KAOf(cur[i], j) # "")
+                                           /\ KA(cur'[i]) = KA(cur[i])
                                            /\ cur'[i].anchor = cur[i].anchor /\ cur'[i].alias = cur[i].alias
                  /\ \A i \in 1..Len(cur) : (cur'[i].t # cur[i].t \/ cur'[i].v # cur[i].v) =>
                        \E j \in 1..Len(cur) : i \in AliasGroup(cur, j) /\ cur'[j].t = cur'[i].t /\ cur'[j].v = cur'[i].v]_evars
